@@ -100,6 +100,29 @@ TEMPLATES_UF = [
 ]
 
 
+# a failure nested several containers deep in the argument of a call the compiler tries to fold (every container kind on
+# the way down, maps included): the result is not a constant
+NEST_WRAP = ["dyn(%s)", "min(%s)", "[%s].filter(p, true)", "[%s].map(p, p)", "[0].reduce(a, v, a, %s)", "size([%s])"]
+NEST_CONT = ["{'k': [%s]}", "{'k': {'j': %s}}", "[{'k': %s}]", "{'k': [{'j': [%s]}]}", "[[{'k': %s}]]", "{'a': 1, 'k': [%s, 2]}",
+             "{'k': {'j': {'i': [%s]}}}"]
+NEST_LEAF = ["[1].map(v, A)", "[1].filter(v, A == 1)", "A", "[A].map(v, v)[0]"]
+TEMPLATES_NEST = [w % (c % l) for w in NEST_WRAP for c in NEST_CONT for l in NEST_LEAF]
+
+# a clock read under a construct that absorbs a failed operand: the value must be the one the VM computes when the clock
+# can be read (N is replaced by a variable bound to a timestamp, by now() and by timestamp())
+TEMPLATES_CLOCK = [
+    "int(match N { case timestamp : 1, case _ : 2 })", "dyn(match N { case timestamp : 1, case _ : 2 })",
+    "int(match [N][0] { case timestamp : 1, case _ : 2 })", "int(match {'a': N}.a { case timestamp : 1, case _ : 2 })",
+    "int(match [1].map(v, N)[0] { case timestamp : 1, case _ : 2 })", "max(match N { case timestamp : 1, case _ : 2 }, 0)",
+    "int(match N >= N { case == true : 1, case == false : 1, case _ : 2 })", "[1, 2].map(v, match N { case timestamp : v, case _ : 0 })",
+    "dyn([1].map(v, match N { case timestamp : v, case _ : 0 }))", "int(match N - N { case duration : 1, case _ : 2 })",
+    "string(match type(N) { case == timestamp : 'y', case _ : 'n' })", "size([1].filter(v, match N { case timestamp : true, case _ : false }))",
+    "int(match [[N]] { case _ : 3 }) + int(match N { case timestamp : 1, case _ : 2 })",
+    "int(match {'k': [N]}.k[0] { case timestamp : 1, case _ : 2 })", "min([match N.getFullYear() { case >= 0 : 1, case _ : 2 }])",
+    "int([1].reduce(a, v, match N { case timestamp : a + v, case _ : 100 }, 0))",
+]
+
+
 def run(chk):
     rng = random.Random(chk.seed)
     if not builds_or_die(chk):
@@ -125,14 +148,23 @@ def run(chk):
         groups.append((len(cases), srcs))
         for s in srcs:
             cases.append(evalsrc_case(s))
+    ngen = len(cases)
     # targeted: variables nested in collections inside calls / macro receivers
     tvals = [("1", vi(1)), ("1", vi(1))]
     tgroups = []
-    for t in TEMPLATES + TEMPLATES_UF:
+    for t in TEMPLATES + TEMPLATES_UF + TEMPLATES_NEST:
         srcs = [t.replace("A", "1"), t.replace("A", "x1")]
         tgroups.append((len(cases), srcs))
         for s in srcs:
-            cases.append(evalsrc_case(s, binds=STD_BINDS + [("x1", vi(1))], ufuncs=[] if t in TEMPLATES else None))
+            cases.append(evalsrc_case(s, binds=STD_BINDS + [("x1", vi(1))], ufuncs=None if t in TEMPLATES_UF else []))
+    for t in TEMPLATES_CLOCK:
+        srcs = [t.replace("N", "tv9"), t.replace("N", "now()"), t.replace("N", "timestamp()")]
+        if "getFullYear" not in t:
+            srcs.append(t.replace("N", "timestamp(null)"))
+        tgroups.append((len(cases), srcs))
+        for s in srcs:
+            cases.append(evalsrc_case(s, binds=STD_BINDS + [("tv9", vtime(1790000000 * 10**9))], ufuncs=[]))
+    ntempl = len(cases) - ngen
     impl, model = tie(chk, "substitution variants", cases)
     nviol = 0
     for start, srcs in groups + tgroups:
@@ -153,11 +185,13 @@ def run(chk):
                                                                           original_result=rs[0], substituted_result=r,
                                                                           case=cases[start + 1 + srcs[1:].index(s)]))
                 nviol += 1
-    chk.stream("generated expressions x {original, all variables as literals, 2 random subsets}", len(cases) - 2 * len(TEMPLATES + TEMPLATES_UF),
+    chk.stream("generated expressions x {original, all variables as literals, 2 random subsets}", ngen,
                len(groups))
     chk.stream("templates with a variable nested in collections inside calls, macro receivers, map literals (string and non-string "
-               "keys), f-strings, and calls of has/coalesce/caller-bound functions under a match arm",
-               2 * len(TEMPLATES + TEMPLATES_UF), len(TEMPLATES + TEMPLATES_UF), exhaustive=True)
+               "keys), f-strings, calls of has/coalesce/caller-bound functions under a match arm, a failing macro nested up to "
+               "four containers deep (lists and maps) in the argument of a folded call, and clock reads (now(), timestamp(), "
+               "timestamp(null)) under a match arm against a bound timestamp",
+               ntempl, len(tgroups), exhaustive=True)
     chk.sample(dict(variants=groups[0][1], results=impl[groups[0][0]:groups[0][0] + len(groups[0][1])]))
     chk.sample(dict(variants=tgroups[0][1], results=impl[tgroups[0][0]:tgroups[0][0] + 2]))
 
